@@ -8,6 +8,7 @@ pk=all   # a pattern naming only the replaced module instruments nothing with th
 for id in "$@"; do
   lc=$(echo $id | tr A-Z a-z)
   d=$out/data-$lc; rm -rf $d; mkdir -p $d
+  [ -x cmd/$lc/build.sh ] && echo "$id: built through its build.sh (instrumented copies): the native part only" 
   go build -cover -coverpkg=$pk -o $out/bin/$lc ./cmd/$lc || exit 2
   GOCOVERDIR=$PWD/$d VERIF_ROOT=$PWD VERIF_EVIDENCE_SUFFIX=.cov $out/bin/$lc quick > $out/$lc.log 2>&1
   echo "$id rc=$?"
